@@ -79,6 +79,17 @@ def add_attrs(rng, v, ty, allow_scale=True):
         v.add_offset = rng.choice([10.0, -3.0, 0.0])
     if rng.random() < 0.2:
         v.long_name = "var " + ty
+    add_reserved(rng, v)
+
+
+# attribute names that collide with pydap's internal `path` attribute / with python attributes of netCDF4 objects
+def add_reserved(rng, obj, p=0.12):
+    if rng.random() < p:
+        obj.setncattr("path", rng.choice(["p0", "/A", "data/in"]))
+    if rng.random() < p:
+        obj.setncattr("name", rng.choice(["temperature", "n"]))
+    if rng.random() < p / 2:
+        obj.setncattr("shape", np.array([7, 7], dtype="i4"))
 
 
 def gen_netcdf(rng, path, shadow_bias=0.6):
@@ -98,11 +109,17 @@ def gen_netcdf(rng, path, shadow_bias=0.6):
             ds.title = "generated"
         if rng.random() < 0.3:
             ds.history = "h1"
+        add_reserved(rng, ds)
         unl_len = rng.randint(0, 3)
 
-        def mkvar(grp, name, visible, coord_of=None):
+        def mkvar(grp, name, visible, coord_of=None, pseudo=False):
             ty = rng.choice(TYPES if coord_of is None else ["i2", "i4", "f4", "f8", "u1", "i1"])
-            if coord_of is not None:
+            if coord_of is not None and pseudo:
+                # named like a dimension but NOT 1-D over it: rank 0, over another dimension, or rank 2
+                others = [d for d in visible if d != coord_of]
+                shapes = [()] + [(o,) for o in others] + [(coord_of, o) for o in others] + [(o, coord_of) for o in others]
+                dims = rng.choice(shapes)
+            elif coord_of is not None:
                 dims = (coord_of,)
             else:
                 rank = rng.choice([0, 1, 1, 2, 2, 3])
@@ -129,7 +146,7 @@ def gen_netcdf(rng, path, shadow_bias=0.6):
         vis_root = list(rdims)
         for d in rdims:
             if rng.random() < 0.6:
-                mkvar(ds, d, vis_root, coord_of=d)
+                mkvar(ds, d, vis_root, coord_of=d, pseudo=rng.random() < 0.3)
         for i in range(rng.randint(1, 3)):
             mkvar(ds, "v%d" % i, vis_root)
         # groups to depth 2 with shadowing dimension names
@@ -139,6 +156,7 @@ def gen_netcdf(rng, path, shadow_bias=0.6):
             g = ds.createGroup(gnames[gi])
             if rng.random() < 0.4:
                 g.gatt = np.int32(gi)
+            add_reserved(rng, g)
             vis = list(vis_root)
             for _ in range(rng.choice([0, 1, 1, 2])):
                 dn = rng.choice(rdims) if rng.random() < shadow_bias else rng.choice(["p", "q"])
@@ -149,9 +167,10 @@ def gen_netcdf(rng, path, shadow_bias=0.6):
             for i in range(rng.randint(0, 2)):
                 mkvar(g, "%sv%d" % (gnames[gi].lower(), i), vis)
             if rng.random() < 0.5 and "x" in g.dimensions:
-                mkvar(g, "x", vis, coord_of="x")
+                mkvar(g, "x", vis, coord_of="x", pseudo=rng.random() < 0.3)
             for si in range(rng.choice([0, 0, 1, 2])):
                 sg = g.createGroup("%s%d" % (gnames[gi], si + 1))
+                add_reserved(rng, sg)
                 vis2 = list(vis)
                 for _ in range(rng.choice([0, 1, 1])):
                     dn = rng.choice(rdims) if rng.random() < shadow_bias else rng.choice(["p", "r"])
@@ -384,6 +403,30 @@ def rand_key(rng, shape):
     return key
 
 
+K_PATH = "C20.reserved_attribute_path"
+
+
+def in_path_class(in_group, file_attrs):
+    """finding class: a netCDF attribute literally named `path` on a non-root group or on a variable of one"""
+    return in_group and any(k == "path" for k, _ in file_attrs)
+
+
+def judge_attrs(ctx, what, case, got_attributes, file_attrs, in_group, internal):
+    """the node must carry exactly the file's attributes.  pydap keeps the group path of every member of a group in
+    `attributes["path"]` (and a group's dimensions in `attributes["dimensions"]`): those are not file content and are
+    dropped here unless the file itself has an attribute of that name"""
+    names = [k for k, _ in file_attrs]
+    got = [(k, canon_val(x)) for k, x in got_attributes.items()
+           if not (k in internal and k not in names) and not (k == "path" and in_group and "path" not in names)]
+    if sorted(got) == sorted(file_attrs):
+        return
+    cls = None
+    if in_path_class(in_group, file_attrs) and \
+            sorted(kv for kv in got if kv[0] != "path") == sorted(kv for kv in file_attrs if kv[0] != "path"):
+        cls = K_PATH
+    ctx.oracle_fail("%s attributes differ from the file's" % what, case, sorted(got), sorted(file_attrs), cls=cls)
+
+
 def check_netcdf(ctx, rng, idx, tmp, cases, lazy_cases, search=False):
     import netCDF4
     from webob import Request
@@ -429,9 +472,7 @@ def check_netcdf(ctx, rng, idx, tmp, cases, lazy_cases, search=False):
         if list(bt.dims) != v["fq"]:
             ctx.oracle_fail("dimension names are not the fully qualified names of the nearest enclosing declarations",
                             case, list(bt.dims), v["fq"], cls=None)
-        got_attrs = sorted((k, canon_val(x)) for k, x in bt.attributes.items() if not (g["path"] and k == "path"))
-        if got_attrs != sorted(v["attrs"]):
-            ctx.oracle_fail("variable attributes differ from the file's", case, got_attrs, sorted(v["attrs"]))
+        judge_attrs(ctx, "variable", case, bt.attributes, v["attrs"], bool(g["path"]), ())
         try:
             data = bt.data[...] if v["shape"] == [] or isinstance(bt.data, LazyVariable) else bt.data
             raw = np.ma.getdata(data) if got_ty == v["ty"] else np.asarray(data)
@@ -443,6 +484,20 @@ def check_netcdf(ctx, rng, idx, tmp, cases, lazy_cases, search=False):
                             gb if isinstance(gb, str) else gb[:8], v["raw"][:8])
         if isinstance(getattr(bt, "data", None), np.ma.MaskedArray) and np.ma.is_masked(bt.data):
             ctx.oracle_fail("values are not the raw stored values (fill values masked)", case, "masked array", "raw")
+    # groups: own dimensions (current sizes) and attributes
+    for g in [root] + groups:
+        case = dict(case0, group="/" + "/".join(g["path"]))
+        node = h.dataset
+        try:
+            for s in g["path"]:
+                node = node[s]
+        except Exception as e:  # noqa: BLE001
+            ctx.oracle_fail("file group missing from the handler dataset", case, type(e).__name__, case["group"])
+            continue
+        if list(node.attributes.get("dimensions", {}).items()) != g["dims"]:
+            ctx.oracle_fail("group does not declare the file's dimensions with their current sizes", case,
+                            list(node.attributes.get("dimensions", {}).items()), g["dims"])
+        judge_attrs(ctx, "group", case, node.attributes, g["attrs"], bool(g["path"]), ("dimensions",))
     # ---- hyperslabs through the served .dods ----------------------------------------------------------
     nslabs = 3 if not search else 5
     for g, v in all_vars:
@@ -672,7 +727,31 @@ def run(ctx):
     explore(ctx, ctx.tier)
     from collections import Counter
     ctx.extra["oracle_failure_kinds"] = dict(Counter(f["what"] for f in ctx.oracle_failures))
-    return ctx.finish(search=lambda c: explore(c, "quick", search=True))
+    return ctx.finish(search=lambda c: explore(c, "quick", search=True), witnesses={K_PATH: witness_path})
+
+
+def witness_path():
+    """Lean `pathWitness`: /A/u with the netCDF attribute path='p0' — still not exposed?"""
+    import netCDF4
+
+    from pydap.handlers.netcdf import NetCDFHandler
+
+    tmp = tempfile.mkdtemp(prefix="c20w-")
+    try:
+        p = os.path.join(tmp, "w.nc")
+        with netCDF4.Dataset(p, "w") as ds:
+            ds.createDimension("x", 2)
+            g = ds.createGroup("A")
+            u = g.createVariable("u", "i4", ("x",))
+            u[...] = [1, 2]
+            u.setncattr("path", "p0")
+            u.units = "m"
+        with warnings.catch_warnings():
+            warnings.simplefilter("ignore")
+            a = NetCDFHandler(p).dataset["A"]["u"].attributes
+        return a.get("path") != "p0" and a.get("units") == "m"
+    finally:
+        shutil.rmtree(tmp, ignore_errors=True)
 
 
 def replay(payload):
